@@ -1020,6 +1020,16 @@ class NumpyModel:
             if idx is not None and idx.nonzero_of is not None and idx.nonzero_of.dtype == 'bool':
                 idx = idx.nonzero_of
         name = tv.id if isinstance(tv, ast.Name) else None
+        if base.ty == 'ndarray' and not aug and idx is not None and value is not None and value.ty != 'ndarray' and not base.sanitized:
+            # x[np.isnan(x)] = finite value, x[np.isinf(x)] = ..., x[~np.isfinite(x)] = ...: hand-written nan_to_num
+            t = idx.nonfinite_test
+            if t is None and idx.inv_of is not None and idx.inv_of.nonfinite_test == frozenset({'finite'}):
+                t = frozenset({'nan', 'posinf', 'neginf'})
+            if t is not None and 'finite' not in t:
+                removed = frozenset(base.nonfinite_removed or ()) | t
+                new = base.w(nonfinite_removed=removed, sanitized=True if removed >= {'nan', 'posinf', 'neginf'} else None)
+                self.rebind(interp, st, frame, tv, new)
+                return
         if base.ty == 'ndarray' and not aug and value is not None and has_const(value) and cval(value) is False and base.axes and base.axes[0] == 'frame' \
                 and (base.cmp is not None or base.bin is not None):
             # mask[-1] = False / mask[-1:] = False: the last frame can no longer be selected
